@@ -350,6 +350,13 @@ func c06Specials(c *Case) {
 	}
 	a0 := Idx(V("a"), N("0"))
 	list := []sp{
+		// postfix ++ / -- bind tighter than the prefix operators (the awk idiom ! seen [ k ] ++)
+		{"- x ++", &Unary{Op: "-", X: &IncDec{Op: "++", X: V("x")}}},
+		{"! x --", &Unary{Op: "!", X: &IncDec{Op: "--", X: V("x")}}},
+		{"- o . k ++ + 1", Bin("+", &Unary{Op: "-", X: &IncDec{Op: "++", X: Mem(V("o"), "k")}}, N("1"))},
+		{"! a [ 0 ] ++", &Unary{Op: "!", X: &IncDec{Op: "++", X: a0}}},
+		{"- - x --", &Unary{Op: "-", X: &Unary{Op: "-", X: &IncDec{Op: "--", X: V("x")}}}},
+		{"x ++ * - y --", Bin("*", &IncDec{Op: "++", X: V("x")}, &Unary{Op: "-", X: &IncDec{Op: "--", X: V("y")}})},
 		{"- x * y", Bin("*", &Unary{Op: "-", X: V("x")}, V("y"))},
 		{"- x + y", Bin("+", &Unary{Op: "-", X: V("x")}, V("y"))},
 		{"! p == q", Bin("==", &Unary{Op: "!", X: V("p")}, V("q"))},
